@@ -36,6 +36,17 @@ def case_flag(case, params):
     return bool(case.get("flags")) and params["flag"] in case["flags"]
 
 
+@predicate
+def text_sha1_in(case, params):
+    """The failing program text is one of the listed ones (sha1 prefix of the exact text)."""
+    import hashlib
+
+    t = case.get("text")
+    if t is None:
+        return False
+    return hashlib.sha1(t.encode()).hexdigest()[:12] in params["sha1"]
+
+
 def load():
     if not os.path.exists(PATH):
         return {"open": [], "fixed": []}
